@@ -255,3 +255,10 @@ for _k in ('C01', 'C02', 'C03', 'C04', 'C05'):
     CHECKS[_k]['text'] += SEQ_NOTE
 for _k in ('C01', 'C19'):
     CHECKS[_k]['text'] += ARG_NOTE
+CHECKS['C13']['text'] += (' Height sequence: one grid position, four calls in one run (no height, 0.0, no height, integer 0; both orders), each '
+                          'proved equal to the stepwise definition of its own request.')
+CHECKS['C14']['text'] += ' The direct computation is decided for grid bearings in [-5, 365] (the unwrapped values the inverse returns).'
+CHECKS['C19']['text'] += (' The CO2-aware correction is decided for three calls in one run (one atmosphere, two symbolic wavelengths, the first '
+                          'again).')
+CHECKS['C09']['text'] += (' A call that ends in an exception is an outcome: argument and state snapshots are compared after it (specs for static '
+                          'reference-epoch-0 parameter sets).')
